@@ -25,7 +25,7 @@ CONSTANTS Tier, Seed
 VARIABLES n, g, pk, dr, mode
 vars == <<n, g, pk, dr, mode>>
 
-MaxN == IF Tier = "thorough" THEN 4 ELSE 3
+MaxN == 4
 Edge(nn, gg, i, j) == (gg \div (2 ^ ((i - 1) * nn + (j - 1)))) % 2 = 1
 Succ(nn, gg, i) == {j \in 1..nn : Edge(nn, gg, i, j)}
 SuccSeq(nn, gg, i) == SelectSeq([j \in 1..nn |-> j], LAMBDA j : Edge(nn, gg, i, j))
@@ -119,8 +119,12 @@ SourceSeq == LET idx == SelectSeq([q \in 1..Len(EdgeList) |-> q],
 
 -----------------------------------------------------------------------------
 Init == n = 0 /\ g = 0 /\ pk = <<>> /\ dr = <<>> /\ mode = ""
-\* thorough: the 4-file graphs are restricted to at most 5 edges and sampled by Seed
-GraphOK(nn, gg) == nn < 4 \/ (PopCount(gg) <= 5 /\ (gg + Seed) % 3 = 0)
+\* the 4-file graphs are restricted to at most 3 (quick) / 5 (thorough) edges and sampled by Seed
+\* ... except the small graphs in which the root imports at least two files (a file is then pending while another
+\* one's imports are discovered): all of those take part
+GraphOK(nn, gg) == \/ nn < 4
+                   \/ PopCount(gg) <= 3 /\ Cardinality(Succ(nn, gg, 1) \ {1}) >= 2
+                   \/ PopCount(gg) <= (IF Tier = "thorough" THEN 5 ELSE 3) /\ (gg + Seed) % 3 = 0
 Next == \/ /\ n = 0
            /\ n' \in 1..MaxN
            /\ g' \in {gg \in 0..(2 ^ (n' * n') - 1) : GraphOK(n', gg)}
